@@ -378,6 +378,46 @@ def extract():
     bs = first_literal_arg(ff, "StringFromFormat", {}, 0)
     out.append("def featureFmt : List Seg := %s" % lean_fmt(bs))
 
+    # UnexpectedExceptionFailure (both constructors) and the message-less TestFailure constructor
+    m = re.search(r"UnexpectedExceptionFailure::UnexpectedExceptionFailure\s*\(\s*UtestShell\s*\*\s*test\s*\)\s*:\s*TestFailure\s*\(\s*test\s*,\s*(" + LIT + r")\s*\)", tf)
+    if not m:
+        raise TranslateError("UnexpectedExceptionFailure(UtestShell*) no longer passes a literal message")
+    out.append("def excUnknownText : Bytes := %s" % lean_bytes(literal_concat(m.group(1))))
+    m = re.search(r"UnexpectedExceptionFailure::UnexpectedExceptionFailure\s*\(\s*UtestShell\s*\*\s*test\s*,\s*const\s+std::exception\s*&\s*e\s*\)\s*:\s*TestFailure\s*\((.*?)\)\s*\{\s*\(void\)\s*e;", tf, re.S)
+    if not m:
+        raise TranslateError("UnexpectedExceptionFailure(UtestShell*, const std::exception&) not found")
+    mm = re.search(r"StringFromFormat\s*\(\s*(" + LIT + r")\s*,\s*getExceptionTypeName\(e\)\.asCharString\(\)\s*,\s*e\.what\(\)\s*\)", m.group(1))
+    if not mm:
+        raise TranslateError("UnexpectedExceptionFailure(e) no longer formats (type name, what())")
+    bs = literal_concat(mm.group(1))
+    out.append("/-- `%s` -/" % comment_of(bs))
+    out.append("def excFmt : List Seg := %s" % lean_fmt(bs))
+    m = re.search(r"TestFailure::TestFailure\s*\(\s*UtestShell\s*\*\s*test\s*,\s*const\s+char\s*\*\s*fileName\s*,\s*size_t\s+lineNum\s*\)\s*:.*?message_\s*\(\s*(" + LIT + r")\s*\)", tf, re.S)
+    if not m:
+        raise TranslateError("TestFailure(test, file, line) no longer sets a literal message")
+    out.append("def noMessageText : Bytes := %s" % lean_bytes(literal_concat(m.group(1))))
+    ut = function_body(tf, r"SimpleString\s+TestFailure::createUserText\s*\([^)]*\)\s*\{")
+    expect_shape("createUserText", re.sub(LIT, "F", ut),
+                 "SimpleString userMessage = F; if (!text.isEmpty()) { if (!text.startsWith(F)) userMessage += F; "
+                 "userMessage += text; userMessage += F; } return userMessage;")
+    lits = [literal_concat(x[0]) for x in re.findall(r"(" + LIT + ")", ut)]
+    if len(lits) != 4 or lits[0]:
+        raise TranslateError("createUserText: expected the literals \"\", prefix-exception, prefix, separator")
+    out.append("def userTextException : Bytes := %s" % lean_bytes(lits[1]))
+    out.append("def userTextPrefix : Bytes := %s" % lean_bytes(lits[2]))
+    out.append("def userTextSeparator : Bytes := %s" % lean_bytes(lits[3]))
+
+    # the overloads without a location pass UNKNOWN and line 0
+    m = re.search(r"static\s+const\s+char\s*\*\s*UNKNOWN\s*=\s*(" + LIT + r")\s*;", src)
+    if not m:
+        raise TranslateError("UNKNOWN literal not found")
+    out.append("def unknownFile : Bytes := %s" % lean_bytes(literal_concat(m.group(1))))
+    ns = norm(src)
+    for what, text in (("allocMemory without location", "returnallocMemory(allocator,size,UNKNOWN,0,allocatNodesSeperately);"),
+                       ("deallocMemory without location", "deallocMemory(allocator,(char*)memory,UNKNOWN,0,allocatNodesSeperately);")):
+        if text not in ns:
+            PROBLEMS.append("%s is no longer `%s`" % (what, text))
+
     # the five first-difference scans (model: Diag.scan / Diag.scanBin)
     n = norm(tf)
     scans = {
